@@ -75,6 +75,13 @@ func c05modes(thorough bool) []c05mode {
 			return []string{"--extends", "--class=String"}
 		}, false},
 	}
+	ms = append(ms, c05mode{"--extends-last-class", func(p gen.Prog) []string {
+		all := firstClass.FindAllStringSubmatch(p.Src, -1)
+		if len(all) > 0 {
+			return []string{"--extends", "--class=" + all[len(all)-1][1]}
+		}
+		return []string{"--extends", "--class=Integer"}
+	}, false})
 	if thorough {
 		ms = append(ms, c05mode{"--hover-last", func(p gen.Prog) []string { return []string{"--hover", fmt.Sprintf("--row=%d", lastRow(p))} }, false},
 			c05mode{"--suggest-1", func(p gen.Prog) []string { return []string{"--suggest", "--row=1"} }, false},
